@@ -50,6 +50,7 @@ def scenarios(tier):
                          seg_mru={'A': mru, 'B': mru}, tx_init={'A': init, 'B': init}, max_ticks=4))
     out.append(dict(name='silent-peer', kind='enum', runner='run_silent_peer', params=dict(thorough=thorough), weight=5))
     out.append(dict(name='adaptive', kind='enum', runner='run_adaptive', params=dict(thorough=thorough), weight=50))
+    out.append(dict(name='partial-reads', kind='enum', runner='run_partial_reads', params=dict(), weight=10))
     return out
 
 
@@ -91,6 +92,72 @@ def run_silent_peer(params, known):
                         violations.append(v)
     return dict(name='silent-peer', evaluations=count, violations=violations[:4], known=[],
                 samples=[dict(role='passive', idle=1, keepalive=0, when='at-once')])
+
+
+def run_partial_reads(params, known):
+    '''"Idle" means no traffic in either direction: octets of a message that is not yet
+    complete are traffic too.  A message is delivered in two reads, the second after the idle
+    deadline armed by the earlier traffic; the endpoint must not start an idle termination
+    before (time of the second read + idle time), and with a silent peer afterwards must
+    start it exactly then.'''
+    violations = []
+    count = 0
+    msgs = [('segment', T.enc_segment(3, 5, b'0123456789' * 3, [T.ext_total_length(30)])), ('keepalive+segment-head', None),
+            ('ack-unknown', T.enc_ack(3, 9, 2))]
+    for role in ('passive', 'active'):
+        for idle in (2, 10):
+            for (mname, octets) in msgs:
+                if octets is None:
+                    octets = T.enc_keepalive() + T.enc_segment(3, 5, b'xy', [T.ext_total_length(2)])
+                for cut in sorted(set([1, 2, 9, len(octets) // 2, len(octets) - 1])):
+                    if not 0 < cut < len(octets):
+                        continue
+                    for (f1, f2) in ((0.5, 1.25), (0.75, 1.5), (0.25, 1.05)):
+                        count += 1
+                        case = dict(role=role, idle=idle, message=mname, cut=cut, first_read_at=f1 * idle, second_read_at=f2 * idle)
+                        w = PeerWorld(dict(role=role, idle=idle, keepalive=0, seg_mru=64, tx_init=64))
+                        w.peer_write(T.enc_contact(0) + T.enc_sess_init(0, 64, 1000, b'dtn://p/'))
+                        w.quiesce()
+                        t0 = w.clock.now_us
+                        parser = T.StreamParser()
+                        seen = 0
+
+                        def terms():
+                            nonlocal seen
+                            out = [m for m in parser.feed(w.out_octets[seen:]) if m['kind'] == 'SESS_TERM']
+                            seen = len(w.out_octets)
+                            return out
+                        terms()
+                        found = None
+                        for (frac, data) in ((f1, octets[:cut]), (f2, octets[cut:])):
+                            w.clock.now_us = t0 + int(frac * idle * 1e6)
+                            # timers due by now fire first
+                            w.quiesce()
+                            if terms():
+                                found = 'idle termination at or before t=%.2f s although octets of an unfinished message arrived at t=%.2f s' % (frac * idle, f1 * idle)
+                                break
+                            w.peer_write(data)
+                            w.quiesce()
+                        if found is None:
+                            # peer silent from now on: termination exactly one idle time after the last read
+                            t_last = t0 + int(f2 * idle * 1e6)
+                            w.clock.now_us = t_last + int(idle * 1e6) - 1000
+                            w.quiesce()
+                            if terms():
+                                found = 'idle termination before a full idle time had passed since the last read'
+                            else:
+                                w.clock.now_us = t_last + int(idle * 1e6) + 1000
+                                w.quiesce()
+                                got = terms()
+                                if len(got) != 1 or got[0].get('reason') != 1:
+                                    found = 'no idle-timeout SESS_TERM one idle time after the last traffic (got %r)' % (got,)
+                        if w.escaped and found is None:
+                            found = 'escaped %s: %s' % (w.escaped[-1][0], w.escaped[-1][2])
+                        if found and len(violations) < 4:
+                            v = Violation(PROP, 'partial-reads', 'idle-timer-ignores-partial-message', dict(), '%r: %s' % (case, found)).as_dict()
+                            v['case'] = case
+                            violations.append(v)
+    return dict(name='partial-reads', evaluations=count, violations=violations, known=[], samples=[])
 
 
 def run_adaptive(params, known):
